@@ -929,7 +929,7 @@ fn light_depth(rng: &mut Rng64, workers: usize) -> u32 {
     }
 }
 
-pub fn generate(ctx: &Ctx, prop: &str, rng: &mut Rng64, thorough: bool) -> SearchCase {
+pub fn generate(ctx: &Ctx, prop: &str, rng: &mut Rng64, thorough: bool, index: u64) -> SearchCase {
     let mut case = SearchCase {
         prop: prop.to_string(),
         dims: (8, 64),
@@ -1112,8 +1112,8 @@ pub fn generate(ctx: &Ctx, prop: &str, rng: &mut Rng64, thorough: bool) -> Searc
             if heavy {
                 // must reach a poll: Stop somewhere in the first tens of thousands of nodes
                 let f = match rng.below(6) {
-                    0 => Fault { kind: FaultKind::StopAtStep, at: rng.below(65), times },
-                    1 => Fault { kind: FaultKind::StopAtLocalNode, at: *rng.pick(&[1u64, 2, 9_999, 10_000, 10_001, 19_999, 20_000]), times },
+                    0 => Fault { kind: FaultKind::StopAtStep, at: index % 65, times },
+                    1 => Fault { kind: FaultKind::StopAtLocalNode, at: [1u64, 2, 9_999, 10_000, 10_001, 19_999, 20_000][(index % 7) as usize], times },
                     2 => Fault { kind: FaultKind::StopAtGlobalNode, at: 1 + rng.below(60_000), times },
                     3 => Fault { kind: FaultKind::StopAtIteration, at: rng.below(6), times },
                     4 => Fault { kind: FaultKind::StopAtStep, at: rng.below(20_000), times },
@@ -1137,7 +1137,7 @@ pub fn generate(ctx: &Ctx, prop: &str, rng: &mut Rng64, thorough: bool) -> Searc
                 }
             } else {
                 match rng.below(10) {
-                    0..=2 => faults.push(Fault { kind: FaultKind::StopAtStep, at: rng.below(65), times }),
+                    0..=2 => faults.push(Fault { kind: FaultKind::StopAtStep, at: index % 65, times }),
                     3 => faults.push(Fault { kind: FaultKind::StopAtLocalNode, at: 1 + rng.below(400), times }),
                     4 => faults.push(Fault { kind: FaultKind::StopAtIteration, at: rng.below(4), times }),
                     5 => faults.push(Fault { kind: FaultKind::StopAfterDone, at: 0, times }),
